@@ -37,6 +37,9 @@ func c08DeriveVal(r *rand.Rand, v any, o genOpts, fresh []string) any {
 	case map[string]any:
 		return c08Derive(r, x, o, fresh)
 	case []any:
+		if len(x) == 2 && reflect.DeepEqual(x[0], 9007199254740993) && r.Intn(2) == 0 {
+			return []any{9007199254740992, map[string]any{"id": 9223372036854775806}}
+		}
 		switch r.Intn(4) {
 		case 0, 1:
 			return c08GenList(r, o, 1)
@@ -108,6 +111,9 @@ func c08GenDoc(r *rand.Rand, o genOpts) map[string]any {
 	m := map[string]any{}
 	for i, n := 0, 1+r.Intn(4); i < n; i++ {
 		m[o.keys[r.Intn(len(o.keys))]] = c08GenVal(r, o, 1)
+	}
+	if r.Intn(8) == 0 { // integers beyond 2^53 inside a list: neighbours collapse when widened to float64
+		m[o.keys[r.Intn(len(o.keys))]] = []any{9007199254740993, map[string]any{"id": 9223372036854775807}}
 	}
 	if r.Intn(6) == 0 { // an empty list under a key (as a keyed value it is within the domain)
 		m[o.keys[r.Intn(len(o.keys))]] = []any{}
